@@ -100,6 +100,9 @@ var ErrValidationKeyNotFound = errors.New("validation key not found in DB")
 // ErrReloadTimeout - DB reload timeout
 var ErrReloadTimeout = errors.New("DB reload timeout")
 
+// ErrDBDestroyed - the DB was destroyed (replaced by a reload, or shut down)
+var ErrDBDestroyed = errors.New("DB is destroyed")
+
 // Open opens the named file read-only and returns a new db object.  The file
 // should exist and be a compatible (CDB or RDB) database file.
 func Open(name string, driver string) (*DB, error) {
@@ -127,6 +130,10 @@ func NewReader(db *DB) (Reader, error) {
 	}
 	db.l.Lock()
 	defer db.l.Unlock()
+	if db.destroyable {
+		// the backend is closed, or will be as soon as its last reader is released
+		return &DataReader{}, ErrDBDestroyed
+	}
 	db.refCount++
 	context := db.dbi.NewContext()
 
@@ -147,6 +154,10 @@ func NewReader(db *DB) (Reader, error) {
 func (f *DB) Destroy() {
 	f.l.Lock()
 	defer f.l.Unlock()
+	if f.destroyable {
+		// already destroyed: the backend was closed then, or will be by its last reader
+		return
+	}
 	f.destroyable = true
 	if f.refCount == 0 {
 		glog.Infof("refcount == 0: Closing DB")
@@ -160,6 +171,9 @@ func (f *DB) Destroy() {
 // to verify that the format of the DB file is valid, by checking for the existence of a key
 // that is known to exist. If the DB file is invalid, the old DB will continue to be used.
 func (f *DB) Reload(path string, validationKey []byte, reloadTimeout time.Duration) (*DB, error) {
+	if f.isDestroyed() {
+		return f, ErrDBDestroyed
+	}
 	c := make(chan int)
 	ctx, cancel := context.WithTimeout(context.Background(), reloadTimeout)
 	defer cancel()
@@ -275,7 +289,17 @@ func (f *DB) ValidateDbKey(dbKey []byte) error {
 
 // GetStats reports DB backend stats
 func (f *DB) GetStats() map[string]int64 {
+	if f.isDestroyed() {
+		return map[string]int64{}
+	}
 	return f.dbi.GetStats()
+}
+
+// isDestroyed tells whether Destroy was called: the backend is closed or about to be
+func (f *DB) isDestroyed() bool {
+	f.l.RLock()
+	defer f.l.RUnlock()
+	return f.destroyable
 }
 
 // Data returns the first data value for the given key.
